@@ -106,3 +106,39 @@ class BestParentsFirstFilter:
         without = [(d, c) for d, c in candidates.items() if not c.individuals]
         with_c.sort(key=lambda it: max(it[1].individuals), reverse=True)
         return dict(with_c + without)
+
+
+class PlainObjective:
+    """An objective given as an instance of an importable class that holds plain data only - what the *standard* pickler accepts, and
+    the usual shape of a user's problem class.  Records every call like the recorder closure does.  Deep copies share the instance
+    (the sprout mechanism deep-copies seeds together with the problem behind them in every round)."""
+
+    def __init__(self, log, tag, obj, bounds, sign, shift=0.0) -> None:
+        self.log, self.tag, self.obj, self.bounds, self.sign, self.shift = log, tag, obj, [list(map(float, b)) for b in bounds], float(sign), float(shift)
+
+    def __deepcopy__(self, memo):
+        return self
+
+    def __getstate__(self):
+        d = dict(self.__dict__)
+        d.pop("_g", None)
+        return d
+
+    def __call__(self, x, *args, **kwargs):
+        g = self.__dict__.get("_g")
+        if g is None:
+            from .objectives import make_math
+
+            g = self.__dict__["_g"] = make_math(self.obj, self.bounds)
+        xc = np.array(x, dtype=np.float64).reshape(-1).copy()
+        y = g(xc)
+        if self.shift:
+            y = y + self.shift
+        if self.sign < 0:
+            y = -y
+        self.log.append((self.tag, xc.tobytes(), y))
+        if len(self.log) > 400000:
+            from .harness import WatchdogAbort
+
+            raise WatchdogAbort("evaluation cap")
+        return y
